@@ -385,22 +385,25 @@ Section OpsOk.
         destruct (emit_triv t s0 r1 (EPartRec h 0 PRTorn) H1 I) as [Ha Ba]. destruct (emit_triv t s0 _ (EPartRec h 0 PRTodo) Ha I) as [Hb Bb].
         split; [exact Hb | congruence]. }
       destruct (emit_triv t s0 r (ERmPart h 0) H I) as [Hrm Brm].
+      set (hp := existsb (dfile_eqb (DPartial h)) (debris (rs r))).
       set (prep := match partrec_state h 0 (debris (rs r)) with
                    | Some PRTorn => _ | Some st => _ | None => _ end).
       assert (P : forall x, prep = Some x -> Rok t s0 (fst x) /\ blobs (rs (fst x)) = blobs (rs r)).
-      { subst prep. intros x. destruct (partrec_state h 0 (debris (rs r))) as [[| |]|].
-        - cbn [negb]. apply (F _ Hrm Brm).
-        - intros [= <-]. auto.
-        - intros [= <-]. auto.
+      { subst prep. intros x. destruct (partrec_state h 0 (debris (rs r))) as [[| |]|]; cbn [negb orb].
+        - apply (F _ Hrm Brm).
+        - destruct hp; [intros [= <-]; auto | apply (F _ Hrm Brm)].
+        - destruct hp; [intros [= <-]; auto | apply (F _ Hrm Brm)].
         - apply (F r H eq_refl). }
-      assert (Q : Rok t s0 (match partrec_state h 0 (debris (rs r)), false with Some PRTorn, false => emit r (ERmPart h 0) | _, _ => r end) /\
-                  blobs (rs (match partrec_state h 0 (debris (rs r)), false with Some PRTorn, false => emit r (ERmPart h 0) | _, _ => r end)) = blobs (rs r)).
-      { destruct (partrec_state h 0 (debris (rs r))) as [[| |]|]; auto. }
       destruct prep as [[r1 st0]|] eqn:Ep.
       + destruct (P _ eq_refl) as [H1 B1]. cbn [fst] in H1, B1. destruct oc as [c|].
         * destruct (G r1 H1 B1 st0 c) as [G1 [G2 G3]]. split; [exact G1|]. split; [exact G2 | exact G3].
         * cbn [fst snd]. split; [exact H1|]. split; [discriminate|]. intros l' Hp. unfold bget in *. rewrite B1. exact Hp.
-      + destruct Q as [Q1 Q2]. cbn [fst snd]. split; [exact Q1|]. split; [discriminate|]. intros l' Hp. unfold bget in *. rewrite Q2. exact Hp.
+      + cbn [fst snd].
+        assert (Q : forall rq, (rq = r \/ rq = emit r (ERmPart h 0)) ->
+                    Rok t s0 rq /\ (forall hit : bool, @None bool = Some hit -> bget (dhex (ldg l)) (rs rq) = Some (dhex (ldg l))) /\
+                    (forall l', bget (dhex (ldg l')) (rs r) = Some (dhex (ldg l')) -> bget (dhex (ldg l')) (rs rq) = Some (dhex (ldg l')))).
+        { intros rq [-> | ->]; (split; [assumption|]; split; [discriminate|]); intros l' Hp; [exact Hp | unfold bget in *; rewrite Brm; exact Hp]. }
+        destruct (partrec_state h 0 (debris (rs r))) as [[| |]|]; cbn [negb orb]; try destruct hp; apply Q; auto.
   Qed.
 
   Lemma download_all_ok t s0 ls : forall r cs,
